@@ -14,6 +14,18 @@
 #define C06_EXT_CALC
 #define C06_CALC_STUBS
 #endif
+#ifdef H_aggr_enclose
+#define C06_AGGR_CALC
+#define C06_AGGR_ENCLOSE
+#define C06_ENCLOSE
+#define C06_CALC_STUBS
+#endif
+#ifdef H_ext_enclose
+#define C06_EXT_CALC
+#define C06_EXT_ENCLOSE
+#define C06_ENCLOSE
+#define C06_CALC_STUBS
+#endif
 #ifdef H_aggr_verify
 #define C06_AGGR_VERIFY
 #define C06_VH_CB ((c06_calc_fn)KSI_AggregationPdu_calculateHmac)
@@ -49,7 +61,7 @@ void harness(void) {
 }
 #endif
 
-#if defined(C06_AGGR_CALC) || defined(C06_EXT_CALC)
+#if defined(H_aggr_calc_v1) || defined(H_aggr_calc_v2) || defined(H_ext_calc_v1) || defined(H_ext_calc_v2)
 /* The PDU is built concretely from static objects: every optional element present or absent, received raw bytes
  * present or absent.  v2 jobs: raw length arbitrary (the bytes are only handed on); v1 job: lengths <= C06_SER_MAX. */
 #ifdef C06_SER_MAX
@@ -134,6 +146,7 @@ void harness(void) {
 	}
 	g_hl = nondet_uint();
 	g_mac_wit = nondet_size();
+	g_c06.call_t = pdu; g_c06.call_alg = (int)alg; g_c06.call_key = key; g_c06.call_placeholder = pdu != NULL ? pdu->hmac : NULL;
 	res = CALC(pdu, alg, key, nondet_bool() ? &out : NULL);
 	if (res == KSI_OK) REACH("MAC computed");
 #if defined(H_aggr_calc_v2) || defined(H_ext_calc_v2)
@@ -176,5 +189,47 @@ void harness(void) {
 			&& (KSI_HashAlgorithm)s_ctx.options[KSI_OPT_EXT_HMAC_ALGORITHM] != KSI_HASHALG_INVALID_VALUE) REACH("PDU accepted with pinned algorithm");
 	if (res == KSI_INVALID_FORMAT) REACH("header or MAC missing");
 	if (res == KSI_HMAC_MISMATCH) REACH("MAC mismatch");
+}
+#endif
+
+#if defined(H_aggr_enclose) || defined(H_ext_enclose)
+#ifdef H_aggr_enclose
+#define REQ_T KSI_AggregationReq
+#define PDU_T KSI_AggregationPdu
+#define ENCLOSE KSI_AggregationReq_encloseWithHeader
+#define ALG_OPT KSI_OPT_AGGR_HMAC_ALGORITHM
+#define VER_OPT KSI_OPT_AGGR_PDU_VER
+#else
+#define REQ_T KSI_ExtendReq
+#define PDU_T KSI_ExtendPdu
+#define ENCLOSE KSI_ExtendReq_encloseWithHeader
+#define ALG_OPT KSI_OPT_EXT_HMAC_ALGORITHM
+#define VER_OPT KSI_OPT_EXT_PDU_VER
+#endif
+static KSI_CTX s_ctx; static KSI_Header s_hdr; static KSI_Config s_conf; static PDU_T s_prev;
+void harness(void) {
+	REQ_T *req = nondet_bool() ? malloc(sizeof(REQ_T)) : NULL;
+	KSI_Header *hdr = nondet_bool() ? &s_hdr : NULL;
+	const char *key = nondet_ptr();
+	PDU_T *out = nondet_bool() ? &s_prev : NULL;
+	int res;
+	memset(&g_c06, 0, sizeof(g_c06)); memset(&g_en, 0, sizeof(g_en)); g_vh_free_calls = 0; g_vh_free_foreign = 0;
+	s_ctx.options[ALG_OPT] = nondet_size(); s_ctx.options[VER_OPT] = nondet_size();
+	s_hdr.ctx = &s_ctx; s_hdr.instanceId = NULL; s_hdr.messageId = NULL; s_hdr.loginId = NULL; s_hdr.raw = NULL;
+	s_conf.ref = 2; s_conf.ctx = &s_ctx;
+	if (req != NULL) {
+		memset(req, 0, sizeof(*req));
+		req->ref = 1; req->ctx = &s_ctx; req->config = nondet_bool() ? &s_conf : NULL;
+#ifdef H_aggr_enclose
+		req->requestHash = nondet_ptr();
+#else
+		req->aggregationTime = nondet_ptr(); req->publicationTime = nondet_ptr();
+#endif
+	}
+	res = ENCLOSE(req, hdr, key, nondet_bool() ? &out : NULL);
+	if (res == KSI_OK) REACH("request enclosed and MAC-ed");
+	if (res == KSI_UNTRUSTED_HASH_ALGORITHM) REACH("untrusted MAC algorithm refused");
+	if (res == KSI_INVALID_STATE) REACH("no MAC algorithm configured");
+	if (res != KSI_OK && g_c06.call_t != NULL) REACH("MAC computation failed");
 }
 #endif
